@@ -62,3 +62,6 @@ func (s *Server) VerifTableSizes() (chats, transfers int) {
 	}
 	return chats, transfers
 }
+
+// VerifRegisterWithTrackers runs the periodic tracker registration loop (it never returns).
+func (s *Server) VerifRegisterWithTrackers(ctx context.Context) { s.registerWithTrackers(ctx) }
